@@ -12,6 +12,7 @@ KNOWN = {
     'crash:ValueError@strategies.py:resolve_strategy_inline_recurse': 'C03-similar-insert-attachments',
     'crash:AssertionError@strategies.py:resolve_strategy_inline_recurse': 'C03-similar-insert-celltype',
     'crash:KeyError@strategies.py:resolve_strategy_inline_recurse': 'C03-similar-insert-id-keyerror',
+    'crash:TypeError@strategies.py:combine_patches': 'C03-combine-mixed-keys',
 }
 
 
